@@ -188,11 +188,15 @@ func runSchedPlans(prop string, plans []schedPlan, rep *common.Report, reported 
 		deadline := time.Now().Add(time.Duration(pl.secs) * time.Second)
 		completed := -1
 		for bound := 0; bound <= pl.bound; bound++ {
+			// many small shards, 16 at a time: a worker's memory is bounded by the
+			// size of its shard (the race detector keeps what executions allocated)
 			n := 16
 			if bound == 0 {
 				n = 1
+			} else if bound >= 2 {
+				n = 256
 			}
-			outs, err := explore.RunShards([]string{"schedworker", pl.scenario, fmt.Sprint(bound), fmt.Sprint(deadline.UnixNano())}, n)
+			outs, err := explore.RunShardsPool([]string{"schedworker", pl.scenario, fmt.Sprint(bound), fmt.Sprint(deadline.UnixNano())}, n, 16)
 			if err != nil {
 				fmt.Println("INFRA:", err)
 				return nil, 2
